@@ -3,13 +3,33 @@
 // `match_any` answers whether any of the offered script hashes is in it.
 #![allow(unused, dead_code, unused_mut, static_mut_refs, non_snake_case)]
 pub const CAP: usize = 3;
-pub const NS: usize = 2;
-pub const MREC: usize = 1;
-pub const BCAP: usize = 2;
-pub const VCAP: usize = 8;
+pub const NS: usize = 3;
 #[macro_use] #[path = "../../prelude/macros.rs"] mod pmacros;
 include!("../../prelude/vec.rs");
-include!("../../prelude/kvstore_meta.rs");
+// minimal ordered store: the FILTER_SCRIPTS rows (key = prefix byte, 2-byte script, 1-byte script type; value = big-endian block number) followed by one
+// row of another namespace, so that a scan which forgets to stop at the prefix boundary is visible
+#[derive(Clone, Copy)] pub struct Prefix(pub [u8; 1]);
+impl Prefix { pub fn len(&self) -> usize { 1 } }
+impl AsRef<Prefix> for Prefix { fn as_ref(&self) -> &Prefix { self } }
+#[derive(Clone, Copy)] pub struct RowKey { pub b: [u8; 4], pub n: usize }
+impl RowKey { pub fn len(&self) -> usize { self.n } pub fn starts_with(&self, p: &Prefix) -> bool { self.n >= 1 && self.b[0] == p.0[0] } }
+impl std::ops::Index<std::ops::Range<usize>> for RowKey { type Output = [u8]; fn index(&self, r: std::ops::Range<usize>) -> &[u8] { assert!(r.end <= self.n, "PANIC: key slice out of range"); &self.b[r] } }
+#[derive(Clone, Copy)] pub struct RowVal(pub [u8; 8]);
+impl AsRef<[u8]> for RowVal { fn as_ref(&self) -> &[u8] { &self.0 } }
+pub struct Db { pub rows: [Option<u64>; NS], pub other: Option<u64> }
+pub static mut DB: Db = Db { rows: [None; NS], other: None };
+pub enum Direction { Forward, Reverse }
+pub enum IteratorMode<'a> { From(&'a Prefix, Direction) }
+pub struct DbIter { pos: usize }
+impl Iterator for DbIter {
+    type Item = (RowKey, RowVal);
+    fn next(&mut self) -> Option<Self::Item> { unsafe {
+        while self.pos < NS { let i = self.pos; self.pos += 1; if let Some(n) = DB.rows[i] { return Some((RowKey { b: [0xE1, i as u8 + 1, 7, 0], n: 4 }, RowVal(n.to_be_bytes()))); } }
+        if self.pos == NS { self.pos += 1; if let Some(n) = DB.other { return Some((RowKey { b: [0xE7, 0, 0, 0], n: 1 }, RowVal(n.to_be_bytes()))); } }
+        None } }
+}
+pub struct DbHandle;
+impl DbHandle { pub fn iterator(&self, mode: IteratorMode) -> DbIter { let IteratorMode::From(p, d) = mode; assert!(p.0[0] == 0xE1 && matches!(d, Direction::Forward), "MODEL-BOUND: forward scan from the FILTER_SCRIPTS prefix only"); DbIter { pos: 0 } } }
 pub type BlockNumber = u64;
 #[derive(Clone, Copy, PartialEq, Eq, Default, Debug)] pub struct Byte32(pub u8);
 impl Byte32 { pub fn as_slice(&self) -> &[u8] { std::slice::from_ref(&self.0) } }
@@ -21,7 +41,7 @@ impl Script {
     pub fn calc_script_hash(&self) -> Byte32 { Byte32(self.bytes[0]) }
 }
 pub enum Key<'a> { Meta(&'a str) }
-impl<'a> Key<'a> { pub fn into_vec(self) -> ByteVec { let Key::Meta(n) = self; assert!(n.len() == 14 && n.as_bytes()[0] == b'F', "MODEL-BOUND: only FILTER_SCRIPTS is read here"); let mut v = ByteVec::new(); v.push(0xE1); v } }
+impl<'a> Key<'a> { pub fn into_vec(self) -> Prefix { let Key::Meta(n) = self; assert!(n.len() == 14 && n.as_bytes()[0] == b'F', "MODEL-BOUND: only FILTER_SCRIPTS is read here"); Prefix([0xE1]) } }
 pub trait Unpack<T> { fn unpack(&self) -> T; }
 #[derive(Clone, Copy, Default)] pub struct PU64(pub u64);
 impl Unpack<u64> for PU64 { fn unpack(&self) -> u64 { self.0 } }
@@ -53,36 +73,35 @@ include!("extracted.rs");
 #[cfg(kani)]
 mod harness {
     use super::*;
-    fn skey(id: usize) -> ByteVec { let mut k = ByteVec::new(); k.push(0xE1); k.push(id as u8 + 1); k.push(7); k.push(0); k }
-    #[kani::proof] #[kani::unwind(8)]
+    #[kani::proof] #[kani::unwind(6)]
     fn matching_scripts() {
-        unsafe { DB.reset(); }
-        // registered scripts (identities 1..=2) with arbitrary recorded block numbers
-        let mut num: [Option<u64>; NS] = [None; NS]; let mut i = 0;
-        while i < NS { if kani::any() { let n: u64 = kani::any(); num[i] = Some(n); unsafe { DB.put_raw(&skey(i), &n.to_be_bytes()); } } i += 1; }
+        // registered scripts (identities 1..=3) with arbitrary recorded block numbers, and a row of the next namespace
+        let num: [Option<u64>; NS] = kani::any(); let other: Option<u64> = kani::any();
+        unsafe { DB.rows = num; DB.other = other; }
         let fp = FilterProtocol { storage: Storage { db: DbHandle } };
-        let nf: usize = kani::any(); kani::assume(nf <= 2);
+        let nf: usize = kani::any(); kani::assume(nf <= 3);
         let limit: usize = kani::any(); kani::assume(limit <= nf);
         let start: u64 = kani::any(); kani::assume(start < (1u64 << 62));
-        let fb: [u8; 2] = kani::any(); let hb: [u8; 2] = kani::any();
+        let fb: [u8; 3] = kani::any(); let hb: [u8; 3] = [11, 12, 13];   // block hashes of a batch are pairwise distinct
         let mut filters = Vec::new(); let mut hashes = Vec::new(); let mut i = 0;
-        while i < 2 { if i < nf { filters.push(FilterBytes(fb[i] & 3)); hashes.push(Byte32(hb[i])); } i += 1; }
+        while i < 3 { if i < nf { filters.push(FilterBytes(fb[i] & 7)); hashes.push(Byte32(hb[i])); } i += 1; }
         let out = fp.check_filters_data(packed::BlockFilters { start, filters, hashes }, limit);
         // reference
         let mut k = 0usize; let mut j = 0usize;
-        while j < 2 {
+        while j < 3 {
             if j < limit {
                 let n = start + j as u64;
                 // must be reported: the filter of block n matches a registered script whose recorded number is below n
                 let mut needed = false; let mut any_reg = false; let mut s = 0;
                 while s < NS { if let Some(b) = num[s] { if (fb[j] >> s) & 1 == 1 { any_reg = true; if b < n { needed = true; } } } s += 1; }
-                // walk the output in order: reported blocks appear in batch order
-                if k < out.len && out.buf[k] == Byte32(hb[j]) && (needed || any_reg) { k += 1; }
-                else { assert!(!needed, "SPEC filter matching: a block whose filter matches a registered script with a recorded number below that block is not reported (its activity is skipped)"); }
+                let reported = k < out.len && out.buf[k] == Byte32(hb[j]);   // output is in batch order
+                if reported { k += 1; }
+                assert!(!needed || reported, "SPEC filter matching: a block whose filter matches a registered script with a recorded number below that block is not reported (its activity is skipped)");
+                assert!(!reported || any_reg, "SPEC filter matching: a block is reported although its filter matches no registered script");
             }
             j += 1;
         }
-        assert!(k == out.len, "SPEC filter matching: a block is reported although its filter matches no registered script, or blocks are reported out of order / beyond the limit");
+        assert!(k == out.len, "SPEC filter matching: blocks are reported out of batch order, twice, or beyond the limit");
         kani::cover!(out.len == 2, "two blocks matched");
     }
 }
